@@ -31,7 +31,8 @@ func (c10) Components() (real, stub []string) {
 		[]string{"simsql: in-memory database/sql driver with a six-statement dialect (a stub of a conforming database)", "snapshot producers and stream consumers (tasks)", "scheduler: simrt controller"}
 }
 
-var c10Names = []string{"A", "B", "C", "Z"}
+// asset names, one of them with dots (tickers such as BRK.B are common); Z is never appended
+var c10Names = []string{"A", "BRK.B", "C.x.y", "Z"}
 
 func (c10) Gen(rng *rand.Rand, tier string, k int) *Case {
 	c := &Case{Family: "repo", Impl: []string{"memory", "file", "sql"}[rng.Intn(3)]}
